@@ -83,8 +83,10 @@ def impl_eq(rl, mode):
     if mode is None:
         return lambda i, j: rl[i] == rl[j]
     if mode == "brief":
-        return lambda i, j: Reaction(rl[i].reactants, rl[i].products) == Reaction(rl[j].reactants, rl[j].products)
-    return lambda i, j: f"{rl[i]:{mode}}" == f"{rl[j]:{mode}}"
+        pre = [Reaction(r.reactants, r.products) for r in rl]
+        return lambda i, j: pre[i] == pre[j]
+    txt = [f"{r:{mode}}" for r in rl]
+    return lambda i, j: txt[i] == txt[j]
 
 
 def spec_class(name):
@@ -119,14 +121,9 @@ def mode_eq(desc, mode):
 def reference(n, eq):
     """pairwise reference: (dupidx, first) and whether eq is an equivalence on the list"""
     m = [[bool(eq(i, j)) for j in range(n)] for i in range(n)]
-    ok = all(m[i][i] for i in range(n)) and all(m[i][j] == m[j][i] for i in range(n) for j in range(n))
-    if ok:
-        for i in range(n):
-            for j in range(n):
-                if m[i][j]:
-                    for k in range(n):
-                        if m[j][k] and not m[i][k]:
-                            ok = False
+    # an equivalence relation is exactly "same class", the class of i being its first related element
+    cls = [next((j for j in range(n) if m[i][j]), -1) for i in range(n)]
+    ok = all(m[i][i] for i in range(n)) and all(m[i][j] == (cls[i] == cls[j]) for i in range(n) for j in range(n))
     dup = [i for i in range(n) if any(m[i][j] for j in range(i))]
     first = [i for i in range(n) if not any(m[i][j] for j in range(i)) and any(m[j][i] for j in range(i + 1, n))]
     return dup, first, ok
@@ -151,8 +148,11 @@ def check_case(res, model, desc, mode, ids, tag):
     case = {"kind": "c15", "desc": desc, "mode": mode}
     # the package's own comparison must be the mode's equivalence on every pair of the list
     ieq = impl_eq(rl, mode)
-    for i in range(n):
-        for j in range(i + 1, n):
+    pairs = [(i, j) for i in range(n) for j in range(i + 1, n)]
+    if len(pairs) > 200:                       # long lists: a fixed pseudo-random sample of the pairs
+        pairs = random.Random(n * 7919 + len(desc[0]["r"])).sample(pairs, 200)
+    for i, j in pairs:
+        if True:
             if bool(ieq(i, j)) != want_eq(i, j) or bool(ieq(j, i)) != want_eq(i, j):
                 d = lambda k: f"{'+'.join(desc[k]['r'])}->{'+'.join(desc[k]['p'])} [{desc[k]['tmin']},{desc[k]['tmax']}] type {desc[k]['type']}"
                 res.violation("oracle", f"mode={mode}: reactions {i} ({d(i)}) and {j} ({d(j)}) are {'equivalent' if want_eq(i, j) else 'different'} "
